@@ -384,3 +384,57 @@ Theorem expanders_null_crash_refuted :
   exists a m', mem_init (fun k => Nat.eqb k 1) default_cfg 64 a init_mem = Stop Crash m'.
 Proof. exact expanders_null_crash_lemma. Qed.
 Print Assumptions expanders_null_crash_refuted.
+
+(* ------------------------------------------------------------------ *)
+(* The source is the model: ?user_malloc / ?user_free as RE-TRANSLATED from SRC/p?memory.c on every run (UstackGen.v, by
+   tools/gen_trans.py through the clang AST) compute, in all four precisions and for ALL argument values, the result and the
+   stack fields that the model's umalloc / ufree compute (event log projected away; `array` is the address held in stack.array,
+   of which the model only knows the alignment m_ba = array mod 8; an int_t which_end selects HEAD when it equals the value of the
+   enum constant HEAD of that file and TAIL otherwise, and the two constants differ). *)
+From SLU Require Import C2GalLib UstackGen UstackTie.
+
+Theorem c14_source_ustack_is_model :
+  forall (p : ArgCheckModel.prec) (m : mem) (array bytes w : Z),
+    m_ba m = array mod 8 ->
+    let s := m_stack m in
+    let e := src_end p w in
+    src_user_malloc p (s_size s) (s_used s) (s_top1 s) (s_top2 s) array bytes w
+      = (poff (fst (umalloc bytes e m)), fields (m_stack (snd (umalloc bytes e m)))) /\
+    src_user_free p (s_size s) (s_used s) (s_top1 s) (s_top2 s) array bytes w
+      = (tt, fields (m_stack (ufree bytes e m))) /\
+    src_end p (src_HEAD p) = HEAD /\ src_end p (src_TAIL p) = TAIL.
+Proof. exact src_ustack_is_model. Qed.
+Print Assumptions c14_source_ustack_is_model.
+
+(* ... and the hypothesis is satisfiable / the generated functions compute (d precision, buffer of 100 bytes at address 1004) *)
+Theorem c14_source_ustack_nonvacuous :
+  let m := set_ba (set_stack init_mem (mkStack 100 16 16 100)) 4 in
+  m_ba m = 1004 mod 8 /\
+  gen_duser_malloc 100 16 16 100 1004 10 gen_d_TAIL = (Some 84, (100, 32, 16, 84)) /\
+  poff (fst (umalloc 10 TAIL m)) = Some 84 /\
+  gen_duser_malloc 100 16 16 100 1004 10 gen_d_HEAD = (Some 16, (100, 26, 26, 100)) /\
+  gen_duser_malloc 100 16 16 100 1004 84 gen_d_HEAD = (None, (100, 16, 16, 100)) /\
+  gen_duser_free 100 32 16 84 1004 16 gen_d_TAIL = (tt, (100, 16, 16, 100)).
+Proof. exact src_umalloc_nonvacuous. Qed.
+Print Assumptions c14_source_ustack_nonvacuous.
+
+(* ustack_granted / ustack_safe restated for the generated function: in a reachable state of the stack (stack_inv) a block
+   granted to a request of bytes >= 0 lies inside [0, lwork) and the state stays reachable ... *)
+Theorem c14_source_block_inside_buffer :
+  forall (p : ArgCheckModel.prec) (lwork size used top1 top2 array bytes w off : Z) (st : Z * Z * Z * Z),
+    stack_inv lwork (mkStack size used top1 top2) -> 0 <= bytes ->
+    src_user_malloc p size used top1 top2 array bytes w = (Some off, st) ->
+    0 <= off /\ off + bytes <= lwork /\
+    exists s', st = fields s' /\ stack_inv lwork s'.
+Proof. exact src_malloc_block_inside. Qed.
+Print Assumptions c14_source_block_inside_buffer.
+
+(* ... and a block granted at the TAIL end (which_end <> HEAD) has an ADDRESS that is a multiple of 8, whatever the address of
+   the buffer, the state of the stack and the byte count are (ustack_tail_blocks_aligned / user_malloc_tail_aligned) *)
+Theorem c14_source_tail_block_aligned :
+  forall (p : ArgCheckModel.prec) (size used top1 top2 array bytes w off : Z) (st : Z * Z * Z * Z),
+    w <> src_HEAD p ->
+    src_user_malloc p size used top1 top2 array bytes w = (Some off, st) ->
+    (array + off) mod 8 = 0.
+Proof. exact src_malloc_tail_aligned. Qed.
+Print Assumptions c14_source_tail_block_aligned.
